@@ -15,12 +15,14 @@ import (
 	apicommon "github.com/enfein/mieru/v3/apis/common"
 	"github.com/enfein/mieru/v3/pkg/socks5"
 
+	"verif/engine/explore"
 	"verif/engine/runner"
 	"verif/engine/simnet"
 	"verif/engine/vnet"
 	"verif/engine/vsched"
 	"verif/harness/reg"
 	"verif/harness/world"
+	"verif/harness/xfer"
 )
 
 func init() {
@@ -53,8 +55,16 @@ func content(kind, n int) []byte {
 
 // inSched runs f under a fresh scheduler and network.
 func inSched(f func(n *simnet.Net, s *vsched.Sched)) []string {
+	return inSchedCtl(nil, f)
+}
+
+// inSchedCtl: the same under an explorer's chooser.
+func inSchedCtl(ctl vsched.Chooser, f func(n *simnet.Net, s *vsched.Sched)) []string {
 	n := simnet.New()
 	s := vsched.New(world.Epoch)
+	if ctl != nil {
+		s.Chooser = ctl
+	}
 	s.Horizon = int64(60 * time.Second)
 	fab := &vnet.Fabric{N: n, Hosts: map[string][]net.IP{"echo.example": {net.IPv4(93, 184, 216, 40)}}, LocalIP: net.IPv4(198, 51, 100, 7)}
 	vnet.Use(fab)
@@ -790,6 +800,87 @@ func relayOrder(u *runner.U, datagramMode bool) {
 	}
 }
 
+// tunnelConcurrent: one tunnel used in both directions at once, as the relay loops use it: a
+// writer whose frame leaves in small pieces (the carrying stream takes a few bytes at a time)
+// while the reader consumes inbound frames. Every schedule with <=1 deviation (2 in the thorough tier): the peer receives
+// exactly the frame that was written, the reader exactly the inbound datagrams.
+func tunnelConcurrent(u *runner.U, ds int) {
+	for _, capacity := range []int{1, 2, 5} {
+		for _, outLen := range []int{15, 300} {
+			capacity, outLen := capacity, outLen
+			name := fmt.Sprintf("tunnel used in both directions at once: outbound %d bytes through a stream that takes %d byte(s) at a time, two inbound datagrams (258 and 3 bytes)", outLen, capacity)
+			u.Sample(name)
+			u.Explore(explore.Bound{Ds: ds}, name, func(ctl *explore.Ctl) explore.Result {
+				v := &xfer.Verdict{Prop: "C18"}
+				out := content(2, outLen)
+				in1, in2 := content(1, 258), []byte{9, 8, 7}
+				frame := func(p []byte) []byte {
+					f := append([]byte{0, byte(len(p) >> 8), byte(len(p))}, p...)
+					return append(f, 0xff)
+				}
+				var peerGot []byte
+				var readerGot [][]byte
+				var werr, rerr error
+				panics := inSchedCtl(ctl, func(n *simnet.Net, s *vsched.Sched) {
+					a, b := pipe(n, simnet.StreamOpts{Capacity: capacity})
+					t := apicommon.NewPacketOverStreamTunnel(a)
+					var g world.Group
+					g.Go("writer", "app", func() { _, werr = t.Write(out) })
+					g.Go("reader", "app", func() {
+						buf := make([]byte, 65536)
+						for i := 0; i < 2; i++ {
+							a.SetReadDeadline(s.Now().Add(5 * time.Second))
+							m, err := t.Read(buf)
+							if err != nil {
+								rerr = err
+								return
+							}
+							readerGot = append(readerGot, append([]byte(nil), buf[:m]...))
+						}
+					})
+					g.Go("peer-writer", "app", func() {
+						b.Write(frame(in1))
+						b.Write(frame(in2))
+					})
+					g.Go("peer-reader", "app", func() {
+						buf := make([]byte, 64)
+						for len(peerGot) < len(out)+4 {
+							b.SetReadDeadline(s.Now().Add(5 * time.Second))
+							m, err := b.Read(buf)
+							peerGot = append(peerGot, buf[:m]...)
+							if err != nil {
+								return
+							}
+						}
+					})
+					g.Wait()
+					a.Close()
+					b.Close()
+				})
+				for _, pn := range panics {
+					v.Add("panic", "%s", pn)
+				}
+				switch {
+				case werr != nil:
+					v.Add("tunnel-concurrent", "Write failed: %v", werr)
+				case rerr != nil:
+					v.Add("tunnel-concurrent", "Read of an inbound datagram failed while a Write was in progress: %v", rerr)
+				case !bytes.Equal(peerGot, frame(out)):
+					v.Add("tunnel-concurrent", "the peer received % x ..., the frame of the written datagram starts % x ... (an inbound datagram was read while the Write was in progress)", head(peerGot, 8), head(frame(out), 8))
+				case len(readerGot) != 2 || !bytes.Equal(readerGot[0], in1) || !bytes.Equal(readerGot[1], in2):
+					v.Add("tunnel-concurrent", "the reader got %d datagrams / wrong contents while a Write was in progress", len(readerGot))
+				}
+				o := "ok"
+				if len(v.Viol) > 0 {
+					o = v.Viol[0].Signature
+				}
+				return explore.Result{Outcome: o, Violations: v.Viol}
+			})
+			u.Distinct(name)
+		}
+	}
+}
+
 type mapResolver map[string]net.IP
 
 func (m mapResolver) LookupIP(ctx context.Context, network, host string) ([]net.IP, error) {
@@ -898,6 +989,13 @@ func units(tier string) []runner.Unit {
 	us = append(us, runner.Unit{Name: "malformed-frames", Cost: 1, Run: func(u *runner.U) {
 		malformed(u)
 		u.Sample("truncation after every byte, wrong marker at each marker position, length above / equal to the reader's buffer; after an oversized datagram (5 contents incl. embedded frames) the reader goes on: every datagram returned without error was sent")
+	}})
+	us = append(us, runner.Unit{Name: "tunnel-both-directions-at-once", Cost: 3, Run: func(u *runner.U) {
+		ds := 1
+		if tier == "thorough" {
+			ds = 2
+		}
+		tunnelConcurrent(u, ds)
 	}})
 	us = append(us, runner.Unit{Name: "udp-associate-wrapper", Cost: 2, Run: func(u *runner.U) {
 		wrapper(u)
